@@ -8,6 +8,7 @@ mod oracle;
 mod render;
 mod stack;
 mod val;
+mod views;
 
 use serde_json::{json, Value as J};
 use std::io::{BufRead, Write};
@@ -22,6 +23,9 @@ fn dispatch(req: &J) -> J {
         "history" => multi::history(req),
         "threads" => multi::threads(req),
         "lex" => lex::run(req),
+        "views" => views::run(req),
+        "derive" => views::derive(req),
+        "ints" => views::ints(req),
         "parse" => match render::build_parser(req) {
             Err(e) => json!({"build_err": e}),
             Ok(p) => match p.parse(req["tpl"].as_str().unwrap()) {
